@@ -1,2 +1,76 @@
+"""Native leg of C04: the emitted C of the three kinds compiled with gcc ASan+UBSan; the history
+assemble; compute; (re-value) compute is compared with evaluate on the same valuations."""
+
+from __future__ import annotations
+
+import random
+from concurrent.futures import ThreadPoolExecutor
+
+from .. import cdrv, engine, gen, native, taco
+from ..common import rm_tree, work_dir
+from .c05_native import pick_cases
+
+
 def run_native(run, tier):
-    run.counters["native_legs"] = "not built yet"
+    n = 48 if tier == "quick" else 1200
+    rng = random.Random(f"C04-native-{run.seed}")
+    wd = work_dir("c04n")
+    try:
+        from tensora.codegen import ir_to_c
+
+        picked = pick_cases(rng, n)
+        items = []
+        for case, k in picked:
+            code = ir_to_c(k.module)
+            dims = engine.input_dims(case)
+            new_inputs = {name: {c: rng.choice(gen.DYADIC) for c in m} for name, m in case.inputs.items()}
+            reval = {}
+            for s in native.tensor_specs(case, k.problem):
+                if s.role == "input":
+                    modes, ordering = taco.parse_fmt(case.formats[s.name])
+                    reval[s.name] = taco.build(new_inputs[s.name], dims[s.name], modes, ordering)[1]
+            hist = cdrv.NativeCase(code, native.tensor_specs(case, k.problem), ["assemble", "compute", "compute"], {2: reval})
+            ev1 = cdrv.NativeCase(code, native.tensor_specs(case, k.problem), ["evaluate"])
+            case2 = engine.Case(case.assignment, case.formats, case.sizes, new_inputs, case.capacity, case.origin, case.target, case.tree)
+            ev2 = cdrv.NativeCase(code, native.tensor_specs(case2, k.problem), ["evaluate"])
+            items.append((case, hist, ev1, ev2))
+        b = 8
+
+        def do_chunk(i):
+            chunk = items[i : i + b]
+            flat = [nc for it in chunk for nc in it[1:]]
+            exe, err = cdrv.build_binary(flat, wd, f"c04_{i}", "asan")
+            if exe is None:
+                return ("build-failed", err)
+            out = []
+            for j, it in enumerate(chunk):
+                out.append((it[0], [cdrv.run_case(exe, 3 * j + q) for q in range(3)]))
+            return ("ok", out)
+
+        with ThreadPoolExecutor(max_workers=12) as pool:
+            results = list(pool.map(do_chunk, range(0, len(items), b)))
+        for st, payload in results:
+            if st != "ok":
+                run.inconclusive_because(f"C04 ASan driver did not compile: {payload[-300:]}")
+                continue
+            for case, runs in payload:
+                run.evaluated()
+                bad = [r for r in runs if r[0] != "ok"]
+                if bad:
+                    if any(r[0] == "timeout" for r in bad):
+                        run.inconclusive_because("a C04 ASan case hit the wall-clock watchdog")
+                    else:
+                        run.violation(f"emitted-c-history:{bad[0][0]}", {"case": case.describe(), "stderr": bad[0][2][-600:]})
+                    continue
+                hist, ev1, ev2 = (r[1] for r in runs)
+                d1 = native.same_described(hist[1]["tensor"], ev1[0]["tensor"])
+                d2 = native.same_described(hist[2]["tensor"], ev2[0]["tensor"])
+                if d1 or d2:
+                    run.violation("emitted-c:compute-differs-from-evaluate", {"case": case.describe(), "first": d1, "revalued": d2})
+                    continue
+                run.count("asan_histories_equal_evaluate")
+                run.nontrivial(hash((case.key(), "asan-history")))
+        if run.counters.get("asan_histories_equal_evaluate", 0) < n // 2:
+            run.inconclusive_because("the ASan leg of C04 observed too few histories")
+    finally:
+        rm_tree(wd)
